@@ -10,6 +10,7 @@ From AV Require Import Index.IndexModel.
 From AV Require Import Index.IndexRefine.
 From AV Require Import Index.ConcIndex.
 From AV Require Import Index.NoIndexPools.
+From AV Require Import Index.NoIndexLife.
 Import ListNotations.
 Open Scope Z_scope.
 
@@ -85,6 +86,48 @@ Theorem c20_dashmap_write_keeps_count : forall (M : Type) hash k (f : M -> M) (c
   dm_write hash k f c = Ok c' -> length (snd c') = length (snd c).
 Proof. intros M hash k f c c'; exact (dm_write_keeps_count hash k f c c'). Qed.
 
+(* (4) the LIFE of the index (Index/NoIndexLife.v): the stored value a run meets is not arbitrary by accident — it is built by
+   update_indices_priv() at the end of Default::default() (relations with initial values) or by the public update_indices(),
+   in whatever pool is current there, and the user may assign the row vectors in between.  "run() rebuilds every index from the
+   rows, in the run pool" is an explicit step of the model (policy AlwaysRebuild); for EVERY history of assignments, index
+   builds in any pools and earlier runs in any pools, every worker assignment and every SCC visit sequence: no panic, and after
+   a run in a pool of c threads the no-bound-column index has c shards and holds exactly the relation's rows, so a count()
+   aggregate over r(_, .., _) returns the number of rows *)
+Theorem c20_noindex_life_total : forall evs st, exists st', life AlwaysRebuild evs st = Ok st'.
+Proof. exact life_always_total. Qed.
+
+Theorem c20_noindex_life_no_loss : forall evs c tids vs st,
+  exists st', life AlwaysRebuild (evs ++ [ERun c tids vs]) st = Ok st' /\
+    length (snd (l_index st')) = Nat.max c 1 /\
+    Permutation (cni_abs (l_index st')) (l_rows st') /\
+    cni_get (cni_freeze (l_index st')) = Ok (Some (cni_abs (l_index st'))) /\
+    noindex_count st' = Z.of_nat (length (l_rows st')).
+Proof. exact life_always_no_loss. Qed.
+
+(* the omission of that step — a run() that keeps the indices it finds when the relation has the size it had when they were
+   built — is harmless as long as they were built in a pool no larger than the run pool ... *)
+Theorem c20_noindex_keep_prebuilt_small_pool : forall a0 rows a tids c tids' vs, (a <= Nat.max c 1)%nat ->
+  exists st', life KeepIfSizeUnchanged [ESet rows; EBuild a tids; ERun c tids' vs] (fresh_state a0) = Ok st' /\
+    Permutation (cni_abs (l_index st')) (l_rows st').
+Proof. exact life_keep_small_pool. Qed.
+
+(* ... and refuted otherwise: 300 initial rows indexed at construction in a pool of 8, run in a pool of 2 (one SCC visit deriving
+   2 rows): the relation has 302 distinct rows, a count() over it returns 78 *)
+Theorem c20_noindex_keep_prebuilt_large_pool_refuted :
+  exists st', life KeepIfSizeUnchanged
+                [ESet (ids 0 300); EBuild 8 (spread 8 300); ERun 2 [] [VDyn [[(0%nat, 300); (1%nat, 301)]]]] (fresh_state 8) = Ok st' /\
+    length (l_rows st') = 302%nat /\ NoDup (l_rows st') /\ noindex_count st' = 78 /\
+    ~ Permutation (cni_abs (l_index st')) (l_rows st').
+Proof. exact life_keep_large_pool_refuted. Qed.
+
+(* the same history with the rebuild: 302 *)
+Example c20_example_life :
+  option_map noindex_count
+    (match life AlwaysRebuild [ESet (ids 0 300); EBuild 8 (spread 8 300); ERun 2 [] [VDyn [[(0%nat, 300); (1%nat, 301)]]];
+                               ESet (ids 0 40); EBuild 16 (spread 16 40); ERun 1 (spread 1 40) [VBody]] (fresh_state 3)
+     with Ok st => Some st | _ => None end) = Some 40.
+Proof. vm_compute. reflexivity. Qed.
+
 (* non-vacuity: a run in a pool of 2 over a frozen 3-shard value left by an earlier run; workers 0, 1 and (from a
    nested larger pool) 5; one dynamic SCC with two productive rounds, one body-only visit *)
 Example c20_example_run :
@@ -97,3 +140,5 @@ Print Assumptions c20_noindex_no_loss. Print Assumptions c20_noindex_rows_once. 
 Print Assumptions c20_noindex_scc_smaller_field. Print Assumptions c20_noindex_without_reset_small.
 Print Assumptions c20_noindex_without_reset_large_refuted. Print Assumptions c20_noindex_insert_in_bounds.
 Print Assumptions c20_dashmap_counts_constant. Print Assumptions c20_dashmap_write_keeps_count. Print Assumptions c20_example_run.
+Print Assumptions c20_noindex_life_total. Print Assumptions c20_noindex_life_no_loss. Print Assumptions c20_noindex_keep_prebuilt_small_pool.
+Print Assumptions c20_noindex_keep_prebuilt_large_pool_refuted. Print Assumptions c20_example_life.
